@@ -51,6 +51,8 @@ CONSTANTS Threads,     \* set of thread numbers (1..9)
           MaxWidth,    \* calls made by one body
           MaxNodes,    \* calls per thread
           Kinds,       \* wrapper kinds to choose from
+          NParts, Part,\* the first call of the driver is restricted to the kinds numbered Part modulo NParts
+                       \* (splits an exhaustive enumeration into several TLC runs; 1, 0 = no restriction)
           Record       \* keep the call tree and the probe log (history variables)
 
 VARIABLES stack,       \* [Threads -> Seq(ctx)]       ag_ctx.stacks.control_status of each thread
@@ -84,6 +86,11 @@ KindsCore  == {KCvt(r, u) : r \in BOOLEAN, u \in BOOLEAN} \cup {KDnc, KUns, KBlk
                     KIc("D", TRUE, TRUE), KIc("U", TRUE, TRUE), KIc("U", FALSE, TRUE)}
 KindsSmall == {KCvt(TRUE, TRUE), KCvt(FALSE, FALSE), KDnc, KUns, KPlain, KIc("cur", TRUE, TRUE), KIc("E", FALSE, FALSE)}
 KindsTiny  == {KCvt(TRUE, TRUE), KDnc, KPlain, KIc("cur", TRUE, FALSE)}
+
+(* a number for every kind, used only to split enumerations *)
+KindNo(k) == (CASE k.w = "cvt" -> 0 [] k.w = "dnc" -> 1 [] k.w = "uns" -> 2 [] k.w = "blk" -> 3 [] k.w = "plain" -> 4 [] OTHER -> 5)
+             + 6 * ((IF k.rec THEN 1 ELSE 0) + 2 * (IF k.ur THEN 1 ELSE 0) + 4 * (IF k.cbd THEN 1 ELSE 0)
+                    + 8 * (CASE k.src = "cur" -> 1 [] k.src = "E" -> 2 [] k.src = "D" -> 3 [] k.src = "U" -> 4 [] OTHER -> 0))
 
 NoKind == [w |-> "-", rec |-> FALSE, ur |-> FALSE, src |-> "none", cbd |-> FALSE]
 
@@ -163,6 +170,7 @@ Call(t, k) ==
                      THEN Frame("body", n, "plain", IF pconv THEN fr.rec ELSE FALSE, FALSE, pconv, NoCtx, "entry")
                      ELSE Frame("wrap", n, r.w, r.rec, r.ur, FALSE, r.cctx, "enter")
      IN /\ Depth(t) < MaxDepth /\ fr.nch < MaxWidth /\ nn[t] < MaxNodes
+        /\ (nn[t] = 0 => KindNo(k) % NParts = Part)
         /\ nn' = [nn EXCEPT ![t] = n]
         /\ ctr' = [ctr EXCEPT ![t] = IF fresh THEN @ + 1 ELSE @]
         /\ cs' = [cs EXCEPT ![t] = Append([@ EXCEPT ![Len(@)] = [fr EXCEPT !.ph = "wait", !.nch = @ + 1, !.cn = n]], callee)]
